@@ -3,8 +3,26 @@
 #define TETL_NUMERIC_GCD_HPP
 
 #include <etl/_type_traits/common_type.hpp>
+#include <etl/_type_traits/is_signed.hpp>
+#include <etl/_type_traits/make_unsigned.hpp>
 
 namespace etl {
+
+namespace detail {
+
+/// |v| as the unsigned type U (modular, so the most negative value is handled too).
+template <typename U, typename T>
+[[nodiscard]] constexpr auto gcd_abs(T v) noexcept -> U
+{
+    if constexpr (etl::is_signed_v<T>) {
+        if (v < 0) {
+            return static_cast<U>(U(0) - static_cast<U>(v));
+        }
+    }
+    return static_cast<U>(v);
+}
+
+} // namespace detail
 
 /// \brief Computes the greatest common divisor of the integers m and n.
 ///
@@ -15,10 +33,17 @@ namespace etl {
 template <typename M, typename N>
 [[nodiscard]] constexpr auto gcd(M m, N n) noexcept -> etl::common_type_t<M, N>
 {
-    if (n == 0) {
-        return m;
+    using R = etl::common_type_t<M, N>;
+    using U = etl::make_unsigned_t<R>;
+
+    auto a = etl::detail::gcd_abs<U>(m);
+    auto b = etl::detail::gcd_abs<U>(n);
+    while (b != 0) {
+        auto const r = static_cast<U>(a % b);
+        a            = b;
+        b            = r;
     }
-    return gcd<M, N>(n, m % n);
+    return static_cast<R>(a);
 }
 
 } // namespace etl
